@@ -51,6 +51,29 @@ pub fn early_stopped_dropout_learn(g: &mut Gen, label: &str) {
                 &format!("{}/{}", label, if spatial { "spatial" } else { "flat" }), true);
         }
     }
+    // … and with the dropout layer inside a feedback block (a deconvolution, a convolution, a dense layer)
+    for kind in ["block-deconv", "block-conv", "block-dense"] {
+        let (input, inner, count) = match kind {
+            "block-deconv" => (Shape::Triple(1, 3, 3), InnerSpec::Deconv { filters: 1, act: "tanh".into(), k: (3, 3), s: (1, 1), p: (1, 1), dropout: Some(0.5), ks: vec![weights(g, &Shape::Triple(1, 3, 3), 0.4)] }, 9),
+            "block-conv" => (Shape::Triple(1, 3, 3), InnerSpec::Conv { filters: 1, act: "tanh".into(), k: (3, 3), s: (1, 1), p: (1, 1), d: (1, 1), dropout: Some(0.5), ks: vec![weights(g, &Shape::Triple(1, 3, 3), 0.4)] }, 9),
+            _ => {
+                let mut d = dense_spec(g, &cfgd, 4, 4, "tanh", true);
+                if let InnerSpec::Dense { dropout, .. } = &mut d { *dropout = Some(0.5); }
+                (Shape::Single(4), d, 4)
+            }
+        };
+        let builds = vec![Build::Feedback { inner: vec![inner], loops: 2, inskips: false, outskips: false, acc: "mean".into() }, Build::Layer(dense_spec(g, &cfgd, count, 2, "linear", true))];
+        let mut net = NetSpec { input, builds, skipacc: "add".into(), loopacc: "mean".into(), opt: None, obj: "mse".into(), clamp: None };
+        net.opt = Some(OptSpec::Sgd(0.05, None));
+        let s = samples_tok(g, &net, &Sh::Flat(2), 2);
+        let v = samples_tok(g, &net, &Sh::Flat(2), 1);
+        for script in [vec![1.0f32, 2.0, 3.0, 4.0, 5.0, 6.0], vec![6.0, 5.0, 4.0, 3.0, 2.0, 1.0]] {
+            g.push(format!("net {} learn 2 {} 1 1 {} 2 1 6 {} {}", net.token(), s, v, script.len(), q1(&script)), Tol::Loose, &format!("{}/{}", label, kind), true);
+        }
+        // a stand-alone validate (and a zero-epoch learn) before the evaluation: the block is back in inference mode
+        g.push(format!("net {} validate 2 {} {} 0", net.token(), s, hx(0.1)), Tol::Tight, &format!("{}/{}/validate", label, kind), true);
+        g.push(format!("net {} learn 2 {} 0 2 0 0", net.token(), s), Tol::Loose, &format!("{}/{}/zero-epochs", label, kind), true);
+    }
 }
 
 /* ---------------- C08 ---------------- */
@@ -75,6 +98,24 @@ pub fn c08(g: &mut Gen) {
                 g.push(format!("net {} predict {}", net.token(), qt(&x)), Tol::Tight, "flat-to-spatial/predict", true);
             }
         }
+    }
+    // an input that is zero in every element: produced shapes and gradient shapes do not depend on the VALUES
+    for kind in 0..4usize {
+        let (input, first, n_mid) = match kind {
+            0 => (Shape::Single(3), dense_spec(g, &cfg, 3, 5, "relu", true), 5),
+            1 => (Shape::Single(4), dense_spec(g, &cfg, 4, 2, "linear", false), 2),
+            2 => (Shape::Triple(2, 3, 4), InnerSpec::Conv { filters: 2, act: "relu".into(), k: (2, 3), s: (1, 1), p: (0, 1), d: (1, 1), dropout: None,
+                ks: (0..2).map(|_| weights(g, &Shape::Triple(2, 2, 3), 0.5)).collect() }, 2 * 2 * 4),
+            _ => (Shape::Triple(1, 2, 3), InnerSpec::Deconv { filters: 2, act: "linear".into(), k: (2, 2), s: (2, 1), p: (0, 0), dropout: None,
+                ks: (0..2).map(|_| weights(g, &Shape::Triple(1, 2, 2), 0.5)).collect() }, 2 * 4 * 4),
+        };
+        let net = NetSpec { input: input.clone(), builds: vec![Build::Layer(first), Build::Layer(dense_spec(g, &cfg, n_mid, 3, "linear", false)), Build::Layer(dense_spec(g, &cfg, 3, 2, "tanh", true))],
+            skipacc: "add".into(), loopacc: "mean".into(), opt: Some(OptSpec::Sgd(0.05, None)), obj: "mse".into(), clamp: None };
+        let zero = match &input { Shape::Single(n) => Tensor::single(vec![0.0; *n]), Shape::Triple(c, h, w) => Tensor::triple(vec![vec![vec![0.0; *w]; *h]; *c]), _ => Tensor::single(vec![]) };
+        let t = target_for(g, &Sh::Flat(2), "mse");
+        g.push(format!("net {} predict {}", net.token(), qt(&zero)), Tol::Tight, "zero-input/predict", true);
+        g.push(format!("net {} backward {} {}", net.token(), qt(&zero), qt(&t)), Tol::Tight, "zero-input/gradient-shapes", true);
+        g.push(format!("net {} learn 1 {} {} 0 1 2 0", net.token(), qt(&zero), qt(&t)), Tol::Loose, "zero-input/learn", true);
     }
     // builders after every kind of predecessor (incl. feedback blocks)
     for (net, _) in [zoo_net2(g, 1), zoo_net2(g, 2), zoo_flat(g)] {
@@ -388,6 +429,32 @@ pub fn c12(g: &mut Gen) {
             g.push(format!("net {} validate {} {} {} 1", net.token(), n, s, hx(0.3)), Tol::Tight, &format!("validate/training-flags-on/{}", n), true);
         }
     }
+    // … and with dropout on every KIND of layer (dense, convolution, deconvolution; top level and inside a block), several
+    // dropout layers in a row (each of them is switched off for the evaluation, not only the first)
+    for kind in 0..5usize {
+        let cfgd = ArchCfg { wscale: 0.5, acts: vec!["tanh", "sigmoid", "linear"], dropout: false, ..ArchCfg::small() };
+        let conv = |g: &mut Gen, ch: usize| InnerSpec::Conv { filters: 1, act: "tanh".into(), k: (3, 3), s: (1, 1), p: (1, 1), d: (1, 1), dropout: Some(0.5), ks: vec![weights(g, &Shape::Triple(ch, 3, 3), 0.4)] };
+        let deconv = |g: &mut Gen| InnerSpec::Deconv { filters: 1, act: "tanh".into(), k: (3, 3), s: (1, 1), p: (1, 1), dropout: Some(0.5), ks: vec![weights(g, &Shape::Triple(1, 3, 3), 0.4)] };
+        let mut head = dense_spec(g, &cfgd, 9, 2, "linear", true);
+        if let InnerSpec::Dense { dropout, .. } = &mut head { *dropout = Some(0.25); }
+        let builds: Vec<Build> = match kind {
+            0 => vec![Build::Layer(conv(g, 1)), Build::Layer(head)],
+            1 => vec![Build::Layer(deconv(g)), Build::Layer(head)],
+            2 => vec![Build::Layer(conv(g, 1)), Build::Layer(deconv(g)), Build::Layer(head)],
+            3 => vec![Build::Layer(deconv(g)), Build::Layer(conv(g, 1)), Build::Layer(head)],
+            _ => vec![Build::Feedback { inner: vec![deconv(g)], loops: 2, inskips: false, outskips: false, acc: "mean".into() }, Build::Layer(conv(g, 1)), Build::Layer(head)],
+        };
+        let net = NetSpec { input: Shape::Triple(1, 3, 3), builds, skipacc: "add".into(), loopacc: "mean".into(), opt: Some(OptSpec::Sgd(0.05, None)), obj: "mse".into(), clamp: None };
+        for n in [3usize, 70] {
+            if !g.ctx.thorough() && n == 70 && kind % 2 == 1 { continue; }
+            let s = samples_tok(g, &net, &Sh::Flat(2), n);
+            g.push(format!("net {} validate {} {} {} 1", net.token(), n, s, hx(0.3)), Tol::Tight, &format!("validate/training-flags-on/kind{}/{}", kind, n), true);
+            g.push(format!("net {} validate {} {} {} 0", net.token(), n, s, hx(0.3)), Tol::Tight, &format!("validate/kind{}/{}", kind, n), true);
+        }
+        let s = samples_tok(g, &net, &Sh::Flat(2), 3);
+        let v = samples_tok(g, &net, &Sh::Flat(2), 2);
+        g.push(format!("net {} learn 3 {} 1 2 {} 5 2 2 0", net.token(), s, v), Tol::Loose, &format!("learn-with-validation/kind{}", kind), true);
+    }
     // arg-max ties and single-output accuracy at the tolerance boundary
     let cfg1 = ArchCfg { final_dense: Some(1), max_layers: 1, flat_input: Some(true), conv: false, deconv: false, pool: false, ..ArchCfg::small() };
     for _ in 0..g.n(10, 100) {
@@ -521,6 +588,12 @@ pub fn c09(g: &mut Gen) {
         }
         let net = NetSpec { input: Shape::Single(3), builds, skipacc: "add".into(), loopacc: "mean".into(), opt: Some(OptSpec::Sgd(0.05, None)), obj: "mse".into(), clamp: None };
         let s = samples_tok(g, &net, &Sh::Flat(3), 4);
+        // (an all-zero sample among the data: what a layer does outside training does not depend on the VALUES it is fed)
+        let zs = format!("{} {} {}", qt(&Tensor::single(vec![0.0, 0.0, 0.0])), qt(&Tensor::single(vec![0.5, -0.25, 0.125])), samples_tok(g, &net, &Sh::Flat(3), 2));
+        g.push(format!("net {} validate 3 {} {} 0", net.token(), zs, hx(0.1)), Tol::Tight, &format!("dense-x{}/validate/zero-sample", depth), true);
+        g.push(format!("net {} validate 3 {} {} 1", net.token(), zs, hx(0.1)), Tol::Tight, &format!("dense-x{}/validate-while-training/zero-sample", depth), true);
+        g.push(format!("net {} predict {}", net.token(), qt(&Tensor::single(vec![0.0, 0.0, 0.0]))), Tol::Tight, &format!("dense-x{}/predict/zero-sample", depth), true);
+        g.push(format!("net {} learn 3 {} 1 3 {} 5 2 2 0", net.token(), zs, zs), Tol::Loose, &format!("dense-x{}/learn-with-validation/zero-sample", depth), true);
         g.push(format!("net {} validate 4 {} {} 1", net.token(), s, hx(0.1)), Tol::Tight, &format!("dense-x{}/validate-while-training", depth), true);
         g.push(format!("net {} validate 4 {} {} 0", net.token(), s, hx(0.1)), Tol::Tight, &format!("dense-x{}/validate", depth), true);
         let v = samples_tok(g, &net, &Sh::Flat(3), 3);
@@ -634,6 +707,10 @@ pub fn c09(g: &mut Gen) {
         g.push(format!("net {} learn 3 {} 1 2 {} 5 2 2 0", net.token(), s, v), Tol::Loose, &format!("block-kind{}/learn-with-validation", kind), true);
         g.push(format!("net {} learn 3 {} 0 2 2 0", net.token(), s), Tol::Loose, &format!("block-kind{}/learn", kind), true);
         g.push(format!("net {} validate 3 {} {} 1", net.token(), s, hx(0.1)), Tol::Tight, &format!("block-kind{}/validate-while-training", kind), true);
+        g.push(format!("net {} validate 3 {} {} 0", net.token(), s, hx(0.1)), Tol::Tight, &format!("block-kind{}/validate", kind), true);
+        g.push(format!("net {} learn 3 {} 0 2 0 0", net.token(), s), Tol::Loose, &format!("block-kind{}/learn-zero-epochs", kind), true);
+        g.push(format!("net {} learnon 3 {} 1 2 {} 5 2 2 0", net.token(), s, v), Tol::Loose, &format!("block-kind{}/learn-entered-with-flags-on", kind), true);
+        g.push(format!("net {} learn 3 {} 1 2 {} 1 2 4 4 {}", net.token(), s, v, q1(&[1.0f32, 2.0, 3.0, 4.0])), Tol::Loose, &format!("block-kind{}/learn-early-stop", kind), true);
     }
     for _ in 0..g.n(40, 800) {
         let (mut net, out) = random_net(g, &cfg);
@@ -698,6 +775,41 @@ pub fn c04(g: &mut Gen) {
         let net = NetSpec { input: Shape::Single(3), builds, skipacc: "add".into(), loopacc: "mean".into(), opt: Some(opts[oi % opts.len()].clone()), obj: "mse".into(), clamp: None };
         let s = samples_tok(g, &net, &Sh::Flat(2), *n);
         g.push(format!("net {} learn {} {} 0 {} 2 0", net.token(), n, s, b), Tol::Loose, &format!("large-groups/N{}/B{}", n, b), true);
+    }
+    // data of a tiny scale (per-sample gradient components of 1e-8 … 1e-12, subnormal at the extreme): the step is still
+    // taken on the SUM of all of them
+    for (si, scale) in [1e-4f32, 1e-6, 1e-20, 1e-4, 3e-5].iter().enumerate() {
+        let scale = *scale;
+        // (initial weights of the data's scale, or zero: the trained weights are then sums of the tiny terms themselves)
+        let ws = if si < 3 { scale } else { 0.0 };
+        let lin = InnerSpec::Dense { out: 2, act: "linear".into(), bias: true, dropout: None, w: Tensor::double(vec![vec![0.5 * ws, -0.25 * ws, 0.75 * ws], vec![-0.5 * ws, 0.25 * ws, 0.125 * ws]]), b: Some(Tensor::single(vec![0.0, 0.0])) };
+        let net = NetSpec { input: Shape::Single(3), builds: vec![Build::Layer(lin)], skipacc: "add".into(), loopacc: "mean".into(), opt: Some(OptSpec::Sgd(0.5, None)), obj: "mse".into(), clamp: None };
+        let s: Vec<String> = (0..5).map(|i| format!("{} {}", qt(&Tensor::single(vec![scale * (1.0 + i as f32), -scale * (0.5 + 0.25 * i as f32), scale * 0.75])),
+            qt(&Tensor::single(vec![scale * 0.5 * i as f32, -scale])))).collect();
+        g.push(format!("net {} learn 5 {} 0 3 2 0", net.token(), s.join(" ")), Tol::Loose, "tiny-scale-data/N5/B3", true);
+    }
+    // feedback blocks trained for several epochs with optimizers that carry state from step to step
+    for (oi, o) in opts.iter().enumerate() {
+        for spatial in [false, true] {
+            if !g.ctx.thorough() && (oi + spatial as usize) % 2 == 1 { continue; }
+            let cb = ArchCfg { wscale: 0.5, acts: vec!["tanh", "sigmoid", "linear"], ..ArchCfg::small() };
+            let (mut net, out) = block_net(g, &cb, 2, false, false, "mean", spatial, true, false);
+            net.opt = Some(o.clone());
+            for (n, b, e) in [(5usize, 2usize, 3usize), (3, 8, 4)] {
+                let s = samples_tok(g, &net, &out, n);
+                g.push(format!("net {} learn {} {} 0 {} {} 0", net.token(), n, s, b, e), Tol::Loose, &format!("block/{}/N{}/B{}/E{}", o.kind(), n, b, e), true);
+            }
+        }
+    }
+    // … and blocks with ONE repetition (the block is its layer sequence: it trains like the plain network)
+    for (oi, o) in opts.iter().enumerate() {
+        for spatial in [false, true] {
+            let cb = ArchCfg { wscale: 0.5, acts: vec!["tanh", "sigmoid", "linear"], ..ArchCfg::small() };
+            let (mut net, out) = block_net(g, &cb, 1, false, false, ["mean", "add"][oi % 2], spatial, true, false);
+            net.opt = Some(o.clone());
+            let s = samples_tok(g, &net, &out, 5);
+            g.push(format!("net {} learn 5 {} 0 2 3 0", net.token(), s), Tol::Loose, &format!("one-repetition-block/{}/{}", o.kind(), if spatial { "spatial" } else { "flat" }), true);
+        }
     }
     // every bias on/off pattern of a three-layer MLP (the per-layer bias gradients are summed over the batch
     // layer by layer; a layer without bias sits between layers with one), B = 2 and B > N
@@ -914,6 +1026,18 @@ pub fn c11(g: &mut Gen) {
             }
         }
     }
+    // a block input that is zero in every element / all ones (bias-free linear layer: every repetition outputs the neutral
+    // element too): the combination is still the stated one
+    for acc in ACCS.iter() {
+        for (i, o) in [(true, false), (false, true), (true, true)] {
+            let flat = InnerSpec::Dense { out: 2, act: "linear".into(), bias: false, dropout: None, w: Tensor::double(vec![vec![0.0, 1.0], vec![1.0, 0.0]]), b: None };
+            let netf = NetSpec { input: Shape::Single(2), builds: vec![Build::Feedback { inner: vec![flat], loops: 3, inskips: i, outskips: o, acc: acc.to_string() }],
+                skipacc: "add".into(), loopacc: "mean".into(), opt: None, obj: "mse".into(), clamp: None };
+            for x in [vec![0.0f32, 0.0], vec![1.0, 1.0], vec![0.0, 2.0]] {
+                g.push(format!("net {} predict {}", netf.token(), qt(&Tensor::single(x))), Tol::Tight, &format!("special-input-values/{}/in{}out{}", acc, i as u8, o as u8), true);
+            }
+        }
+    }
     // several hundred repetitions (more than a byte counts): the combination over all of them is still the stated one —
     // the mean divides by the number of repetitions, whatever it is
     for loops in [255usize, 256, 257, 300] {
@@ -1121,6 +1245,59 @@ pub fn c16(g: &mut Gen) {
             if *acc == "add" {
                 let t = target_for(g, &out, "mse");
                 g.push(format!("net {} backward {} {}", net.token(), qt(&x), qt(&t)), Tol::Tight, "skip-gradient", true);
+            }
+        }
+    }
+    // inputs that are zero in every element, and inputs with single zeros: a source that is exactly zero still takes part
+    // in the accumulation (the mean still halves, the product is zero, overwrite hands on the zeros)
+    for acc in ACCS.iter() {
+        for seq in [vec![(0usize, 1usize)], vec![(0, 2)], vec![(0, 1), (1, 3)], vec![(1, 1)]] {
+            let (mut net, out) = skip_net(g, &cfg, 4, 3, false);
+            for (a, b) in &seq { net.builds.push(Build::Connect(*a, *b)); }
+            net.skipacc = acc.to_string();
+            for x in [vec![0.0f32, 0.0, 0.0], vec![0.0, 0.7, -0.0], vec![1.0, 1.0, 1.0], vec![3e-6, -2e-6, 4e-6]] {
+                g.push(format!("net {} predict {}", net.token(), qt(&Tensor::single(x.clone()))), Tol::Tight, &format!("special-input-values/{}", acc), true);
+                if *acc == "add" {
+                    let t = target_for(g, &out, "mse");
+                    g.push(format!("net {} backward {} {}", net.token(), qt(&Tensor::single(x)), qt(&t)), Tol::Tight, "special-input-values/gradient", true);
+                }
+            }
+        }
+    }
+    // chains configured back to front and in mixed order (whether a set of connections is accepted does not depend on the
+    // order of the calls)
+    for seq in [vec![(1usize, 2usize), (0, 1)], vec![(2, 3), (1, 2), (0, 1)], vec![(1, 3), (0, 1)], vec![(2, 3), (0, 2)], vec![(1, 2), (0, 1), (2, 3)]] {
+        let (mut net, out) = skip_net(g, &cfg, 4, 4, false);
+        for (a, b) in &seq { net.builds.push(Build::Connect(*a, *b)); }
+        g.push(format!("net {} connectmap", net.token()), Tol::Exact, "connect-seq/back-to-front", true);
+        let x = input_for(g, &net.input);
+        g.push(format!("net {} predict {}", net.token(), qt(&x)), Tol::Tight, "skip-forward/back-to-front", true);
+        let t = target_for(g, &out, "mse");
+        g.push(format!("net {} backward {} {}", net.token(), qt(&x), qt(&t)), Tol::Tight, "skip-gradient/back-to-front", true);
+    }
+    // every layer kind as the SOURCE and as the TARGET of a connection, with layers that change the element count (an
+    // up-sampling deconvolution, a strided convolution, a pooling layer): the counts compared are those of the two INPUTS
+    {
+        let dc = InnerSpec::Deconv { filters: 1, act: "tanh".into(), k: (2, 2), s: (2, 2), p: (0, 0), dropout: None, ks: vec![weights(g, &Shape::Triple(1, 2, 2), 0.5)] };
+        let cv = InnerSpec::Conv { filters: 1, act: "tanh".into(), k: (2, 2), s: (2, 2), p: (0, 0), d: (1, 1), dropout: None, ks: vec![weights(g, &Shape::Triple(1, 2, 2), 0.5)] };
+        let c1 = InnerSpec::Conv { filters: 1, act: "tanh".into(), k: (1, 1), s: (1, 1), p: (0, 0), d: (1, 1), dropout: None, ks: vec![weights(g, &Shape::Triple(1, 1, 1), 0.8)] };
+        let mp = InnerSpec::Maxpool { k: (2, 2), s: (2, 2) };
+        let variants: Vec<(Vec<InnerSpec>, (usize, usize), usize)> = vec![
+            (vec![dc.clone(), cv.clone()], (0, 2), 4), (vec![c1.clone(), dc.clone(), cv.clone()], (1, 3), 4), (vec![dc.clone(), mp.clone()], (0, 2), 4),
+            (vec![dc.clone(), cv.clone(), c1.clone()], (0, 2), 4), (vec![dc.clone(), cv.clone()], (0, 1), 4), (vec![dc.clone(), cv.clone()], (1, 2), 4)];
+        for (layers, (a, b), count) in variants {
+            for acc in ["add", "mean", "mul"] {
+                let mut builds: Vec<Build> = layers.iter().cloned().map(Build::Layer).collect();
+                builds.push(Build::Layer(dense_spec(g, &cfg, count, 3, "linear", true)));
+                builds.push(Build::Connect(a, b));
+                let net = NetSpec { input: Shape::Triple(1, 2, 2), builds, skipacc: acc.into(), loopacc: "mean".into(), opt: None, obj: "mse".into(), clamp: None };
+                g.push(format!("net {} connectmap", net.token()), Tol::Exact, "connect/count-changing-layers", true);
+                let x = input_for(g, &net.input);
+                g.push(format!("net {} predict {}", net.token(), qt(&x)), Tol::Tight, &format!("skip-forward/count-changing-layers/{}", acc), true);
+                if acc == "add" {
+                    let t = target_for(g, &Sh::Flat(3), "mse");
+                    g.push(format!("net {} backward {} {}", net.token(), qt(&x), qt(&t)), Tol::Tight, "skip-gradient/count-changing-layers", true);
+                }
             }
         }
     }
@@ -1336,6 +1513,37 @@ pub fn c17(g: &mut Gen) {
             }
         }
     }
+    // inputs that are zero in every element / all ones (the neutral elements of the accumulations): every iteration still
+    // takes part (the mean still divides by the number of outputs)
+    for acc in ACCS.iter() {
+        for inskips in [false, true] {
+            let c = ArchCfg { conv: false, deconv: false, pool: false, flat_input: Some(true), ..cfg.clone() };
+            let mut net = NetSpec { input: Shape::Single(3), builds: vec![Build::Layer(dense_spec(g, &c, 3, 3, "linear", false)), Build::Layer(dense_spec(g, &c, 3, 3, "tanh", false)),
+                Build::Layer(dense_spec(g, &c, 3, 2, "linear", true))], skipacc: "add".into(), loopacc: acc.to_string(), opt: None, obj: "mse".into(), clamp: None };
+            net.builds.push(Build::Loopback { outof: 1, into: 0, iterations: 2, scale: "inv".into(), inskips });
+            for x in [vec![0.0f32, 0.0, 0.0], vec![1.0, 1.0, 1.0], vec![0.0, -0.0, 0.5]] {
+                g.push(format!("net {} predict {}", net.token(), qt(&Tensor::single(x))), Tol::Tight, &format!("special-input-values/{}/inskips{}", acc, inskips as u8), true);
+            }
+        }
+    }
+    // successive outputs that cancel exactly (a linear layer that negates / rotates: y0 = -x, y1 = x): a mean (sum) that is
+    // exactly zero is passed on as zero
+    for acc in ACCS.iter() {
+        for iters in [1usize, 3] {
+            let negate = InnerSpec::Dense { out: 2, act: "linear".into(), bias: false, dropout: None, w: Tensor::double(vec![vec![-1.0, 0.0], vec![0.0, -1.0]]), b: None };
+            let rot = InnerSpec::Dense { out: 2, act: "linear".into(), bias: false, dropout: None, w: Tensor::double(vec![vec![0.0, -1.0], vec![1.0, 0.0]]), b: None };
+            for (li, l) in [negate, rot].into_iter().enumerate() {
+                let mut net = NetSpec { input: Shape::Single(2), builds: vec![Build::Layer(l)], skipacc: "add".into(), loopacc: acc.to_string(), opt: None, obj: "mse".into(), clamp: None };
+                net.builds.push(Build::Loopback { outof: 0, into: 0, iterations: iters, scale: "inv".into(), inskips: false });
+                g.push(format!("net {} predict {}", net.token(), qt(&Tensor::single(vec![1.5, -0.75]))), Tol::Tight, &format!("cancelling-outputs/{}/k{}/{}", acc, iters, li), true);
+            }
+            let neg3 = InnerSpec::Conv { filters: 2, act: "linear".into(), k: (1, 1), s: (1, 1), p: (0, 0), d: (1, 1), dropout: None,
+                ks: vec![Tensor::triple(vec![vec![vec![-1.0]], vec![vec![0.0]]]), Tensor::triple(vec![vec![vec![0.0]], vec![vec![-1.0]]])] };
+            let mut net = NetSpec { input: Shape::Triple(2, 1, 2), builds: vec![Build::Layer(neg3)], skipacc: "add".into(), loopacc: acc.to_string(), opt: None, obj: "mse".into(), clamp: None };
+            net.builds.push(Build::Loopback { outof: 0, into: 0, iterations: iters, scale: "inv".into(), inskips: false });
+            g.push(format!("net {} predict {}", net.token(), qt(&Tensor::triple(vec![vec![vec![1.5, -0.75]], vec![vec![0.5, 2.0]]]))), Tol::Tight, &format!("cancelling-outputs/{}/k{}/spatial", acc, iters), true);
+        }
+    }
     // loops that start behind a layer which CHANGES the shape (a dense layer changing the width, a convolution changing the
     // channel count, a strided convolution changing the map): with input skips the original input of layer a — the output
     // of that layer — is added in every iteration all the same
@@ -1519,6 +1727,17 @@ pub fn c01(g: &mut Gen) {
         let mut onehot = vec![0.0f32; n];
         onehot[n - 1] = 1.0;
         g.push(format!("net {} backward {} {}", net.token(), qt(&x), qt(&Tensor::single(onehot))), Tol::Tight, &format!("softmax-ce/{}/one-hot", n), true);
+    }
+    // soft-max output whose logits are all strongly negative / all strongly positive (the gradients depend on the logit
+    // differences only and are ordinary numbers)
+    for bias in [-150.0f32, -110.0, 150.0] {
+        let c = ArchCfg { conv: false, deconv: false, pool: false, flat_input: Some(true), ..cfg.clone() };
+        let w = Tensor::double(vec![vec![0.5, -0.25, 0.125, 0.3], vec![-0.5, 0.75, 0.25, -0.2], vec![0.25, 0.25, -0.5, 0.1]]);
+        let out = InnerSpec::Dense { out: 3, act: "softmax".into(), bias: true, dropout: None, w, b: Some(Tensor::single(vec![bias, bias - 1.5, bias + 1.0])) };
+        let net = NetSpec { input: Shape::Single(3), builds: vec![Build::Layer(dense_spec(g, &c, 3, 4, "tanh", true)), Build::Layer(out)],
+            skipacc: "add".into(), loopacc: "mean".into(), opt: None, obj: "ce".into(), clamp: None };
+        let x = input_for(g, &net.input);
+        g.push(format!("net {} backward {} {}", net.token(), qt(&x), qt(&Tensor::single(vec![0.0, 1.0, 0.0]))), Tol::Tight, "softmax-ce/shifted-logits", true);
     }
     // saturated activations whose tiny derivative is amplified by a huge following weight (the derivative at -50, -20,
     // +20 is an ordinary single-precision number; it must not be flushed to zero, overflow or turn into NaN)
